@@ -1,3 +1,4 @@
+import Plotink.PyIO
 /-! # C07 — legacy serial primitives `ebb_serial.query` / `ebb_serial.command`
 
 Executable model (core Lean only), mirroring the control flow of `plotink/ebb_serial.py`.
@@ -8,7 +9,7 @@ Executable model (core Lean only), mirroring the control flow of `plotink/ebb_se
   `'Err:' in x` raises `TypeError` when `x` is `bytes`.  Exceptions that the code does **not** catch
   (`TypeError`, `UnicodeDecodeError`, `UnicodeEncodeError`) are results `Except.error …`; the serial
   I/O exceptions named by the handler (`SerialException`, `IOError`, `OSError`, `RuntimeError`) are
-  script outcomes `raiseIO` and are contained by the handler, as in the code.
+  script outcomes `raise c` and are contained by the handler, as in the code.
 * The retry limit, the list of queries without a trailing `OK`, and whether the retry loop of `query`
   decodes what it reads are **parameters** (`Params`); the harness extracts their values from the
   current source and compares them with `std`.  All theorems are stated for every retry limit and
@@ -36,27 +37,12 @@ inductive PyExc where
   | unicodeEncodeError   -- `.encode('ascii')` of a non-ASCII character
   deriving Repr, DecidableEq
 
-/-- outcome of one `readline()` -/
-inductive Rd where
-  | line (b : Bytes)     -- returns these bytes (a full line with its terminator, or a fragment)
-  | empty                -- times out: returns `b''`
-  | raiseIO              -- raises `serial.SerialException` / `OSError`
-  deriving Repr, DecidableEq
+/-! the scripted port is the one of the runtime for source-regenerated I/O code (`Plotink/PyIO.lean`):
+`Rd = line b | empty | raise c`, `Wr = ok | raise c`, `Port = {reads, writes, log, nread}`.  In this model every
+`raise` outcome is a serial I/O exception of a class the handlers name (`SerialException`, `IOError`/`OSError`,
+`RuntimeError`), whatever the class `c`; the bridge to the regenerated code carries that as a hypothesis. -/
 
-/-- outcome of one `write()` -/
-inductive Wr where
-  | ok
-  | raiseIO
-  deriving Repr, DecidableEq
-
-structure Port where
-  reads : List Rd
-  writes : List Wr
-  /-- arguments of the `write()` calls made so far, oldest first -/
-  log : List Bytes := []
-  /-- number of `readline()` calls made so far -/
-  nread : Nat := 0
-  deriving Repr, DecidableEq
+export PyIO (Rd Wr Port)
 
 structure Params where
   /-- bound of the retry-on-empty loops -/
@@ -73,35 +59,13 @@ def std : Params :=
 
 /-! ## Python string primitives (ASCII alphabet) -/
 
-def isAscii (s : List Char) : Bool := s.all (fun c => c.toNat < 128)
-
-/-- `str.isspace` restricted to ASCII: TAB LF VT FF CR FS GS RS US SPACE -/
-def isWs (c : Char) : Bool :=
-  let n := c.toNat
-  (9 ≤ n && n ≤ 13) || (28 ≤ n && n ≤ 32)
-
-def lowerChar (c : Char) : Char :=
-  if 65 ≤ c.toNat ∧ c.toNat ≤ 90 then Char.ofNat (c.toNat + 32) else c
-
-def lower (s : Str) : Str := s.map lowerChar
-
-def strip (s : Str) : Str := ((s.dropWhile isWs).reverse.dropWhile isWs).reverse
+export PyIO (isAscii isWs lowerChar lower strip isPrefixOf isInfix)
 
 /-- `s.split(",")[0]` -/
 def firstField (s : Str) : Str := s.takeWhile (· ≠ ',')
 
 /-- `cmd.split(",")[0].strip().lower()` -/
 def reqName (cmd : Str) : Str := lower (strip (firstField cmd))
-
-def isPrefixOf : Str → Str → Bool
-  | [], _ => true
-  | _ :: _, [] => false
-  | a :: as, b :: bs => a == b && isPrefixOf as bs
-
-/-- `p in s` for `str` -/
-def isInfix (p : Str) : Str → Bool
-  | [] => p.isEmpty
-  | s@(_ :: t) => isPrefixOf p s || isInfix p t
 
 /-- `x.encode('ascii')` -/
 def encode (s : Str) : Option Bytes := if isAscii s then some s else none
@@ -126,14 +90,14 @@ def readline (p : Port) : Option Bytes × Port :=
   | [] => (some [], { p with nread := p.nread + 1 })
   | .line b :: r => (some b, { p with reads := r, nread := p.nread + 1 })
   | .empty :: r => (some [], { p with reads := r, nread := p.nread + 1 })
-  | .raiseIO :: r => (Option.none, { p with reads := r, nread := p.nread + 1 })
+  | .raise _ :: r => (Option.none, { p with reads := r, nread := p.nread + 1 })
 
 /-- `port.write(b)`: `false` = raised a serial I/O exception -/
 def write (b : Bytes) (p : Port) : Bool × Port :=
   match p.writes with
   | [] => (true, { p with log := p.log ++ [b] })
   | .ok :: w => (true, { p with writes := w, log := p.log ++ [b] })
-  | .raiseIO :: w => (false, { p with writes := w, log := p.log ++ [b] })
+  | .raise _ :: w => (false, { p with writes := w, log := p.log ++ [b] })
 
 /-- how a `try` body ended -/
 inductive Flow where
@@ -252,7 +216,7 @@ def arrived : Nat → List Rd → Bytes
   | _, [] => []
   | k + 1, .line b :: r => if b = [] then arrived k r else b
   | k + 1, .empty :: r => arrived k r
-  | _ + 1, .raiseIO :: _ => []
+  | _ + 1, .raise _ :: _ => []
 
 def allAscii (rs : List Rd) : Bool :=
   rs.all (fun r => match r with | .line b => isAscii b | _ => true)
@@ -266,7 +230,7 @@ instance : DecidableEq (Except PyExc Val) := fun a b =>
 
 def firstWriteOk (p : Port) : Bool :=
   match p.writes with
-  | .raiseIO :: _ => false
+  | .raise _ :: _ => false
   | _ => true
 
 /-- one exchange with a conforming legacy board: the request and the reply the board produces
